@@ -87,7 +87,11 @@ type c03TimeKey struct{}
 // c03Time is the time event (g,i) is stamped with: seconds, milliseconds and zone all differ between goroutines and between consecutive events.
 func c03Time(g, i int) time.Time {
 	loc := time.FixedZone("", (g%5-2)*1800)
-	return time.Date(2025, 6, 1, 0, 0, 0, 0, time.UTC).Add(time.Duration(g*7919+i*613) * time.Millisecond).In(loc)
+	ms := g*7919 + i*613
+	if i%4 != 3 { // three quarters of the events fall into three adjacent seconds (events in flight together share a second or differ by one)
+		ms = ((g+i)%3)*1000 + ms%1000
+	}
+	return time.Date(2025, 6, 1, 0, 0, 0, 0, time.UTC).Add(time.Duration(ms) * time.Millisecond).In(loc)
 }
 
 // Concurrent runs. Case: "<sink console|file|rolling> <layout text|json> <goroutines> <eventsPerGoroutine> <bufferCap e.g. 4KB> <sizeLo> <sizeHi> <chunk> [<ctx 0|1>]"
